@@ -461,6 +461,8 @@ static void snapshot(void)
     }
     snap_put("q", "%" PRIu64, cmb_event_queue_count());
     tr("S %" PRIu64 " %a%s\n", evno, cmb_time(), snapbuf);
+    /* one write per event: if the library crashes later, the history up to here is on record */
+    fflush(tf);
 }
 
 /* ------------------------------------------------------------ actions -- */
